@@ -89,6 +89,11 @@ func genC15Project(c *orch.Ctx, i int) *synth.Project {
 			}
 			t := synth.Prim("string")
 			m.Ret = &t
+			if r.Intn(4) == 0 {
+				// @Hidden only removes the operation from the document; the route is still served and still conflicts
+				m.Hidden = true
+				p.SetFeature("hidden-method")
+			}
 			cc.Methods = append(cc.Methods, m)
 		}
 	}
